@@ -1099,3 +1099,68 @@ fn handle_update_lemma_n2() {
     kani::cover!(new_w < old_w, "shrinking update");
     std::mem::forget(st);
 }
+
+/// handle_insert (what insert() runs for a NEW key after the map write) for ALL weights, candidate
+/// weights, capacities and sketch contents: fits -> appended, nothing evicted; heavier than the
+/// capacity -> removed again; otherwise admitted over exactly the shortest covering LRU prefix iff
+/// strictly more popular, else removed again with every resident untouched; counters exact.
+fn handle_insert_lemma(n: usize) {
+    let wsym: [u32; MAXN] = kani::any();
+    let cap: u64 = kani::any();
+    let mut st = build::<IdH>(&cfg(n, Some(0), false, W1, false, false, WO_ID, false));
+    st.c.max_capacity = Some(cap);
+    let wt2 = wsym;
+    st.c.weigher = Some(Box::new(move |k: &u8, _v: &Val| wt2[*k as usize]));
+    let mut ws = 0u64;
+    let mut i = 0;
+    while i < n {
+        st.c.cache.get_mut(&(i as u8)).unwrap().set_policy_weight(wsym[i]);
+        ws += wsym[i] as u64;
+        i += 1;
+    }
+    st.c.weighted_size = ws;
+    kani::assume(ws <= cap); // evict_lru_entries ran just before (decided by evict_lru_lemma)
+    let key = n as u8;
+    let cw = wsym[n];
+    let nv_val = Val { cls: 0, data: kani::any() };
+    let fc = st.c.frequency_sketch.frequency(IdH::h(key)) as u32;
+    let mut f = [0u32; MAXN];
+    let mut i = 0;
+    while i < n { f[i] = st.c.frequency_sketch.frequency(IdH::h(i as u8)) as u32; i += 1; }
+    let rc = Rc::new(key);
+    st.c.cache.insert(Rc::clone(&rc), ValueEntry::new(nv_val, cw));
+    st.c.handle_insert(rc, IdH::h(key), cw, None);
+    // reference
+    let fits = ws + cw as u64 <= cap;
+    let mut pw = 0u64; let mut pf = 0u32; let mut nv = 0usize;
+    let mut admit = fits;
+    if !fits && cw as u64 <= cap {
+        let mut i = 0;
+        while i < n { if pw < cw as u64 { pw += wsym[i] as u64; pf += f[i]; nv = i + 1; } i += 1; }
+        admit = pw >= cw as u64 && fc > pf;
+    }
+    if !admit || fits { nv = 0; pw = 0; }
+    let mut i = 0;
+    while i < MAXN {
+        if i < n { assert!(st.c.cache.get(&(i as u8)).is_some() == (i >= nv), "C12,C13,C03: residents removed by an insert must be exactly the shortest covering LRU prefix, and only on admission"); }
+        i += 1;
+    }
+    assert!(st.c.cache.get(&key).is_some() == admit, "C13,C03,C04: newcomer retained iff it fits, or it is not heavier than the capacity and wins the admission");
+    let cnt = (n - nv) as u64 + if admit { 1 } else { 0 };
+    let sum = ws - pw + if admit { cw as u64 } else { 0 };
+    assert!(st.c.entry_count == cnt && st.c.weighted_size == sum, "C10: counters after an insert");
+    assert!(sum <= cap, "C04: resident weight within max_capacity after a fresh insert");
+    let (_, an, ok) = dq::walk::<KeyHashDate<u8>, MAXN>(&st.c.deques.probation);
+    assert!(ok && an as u64 == cnt, "C08,C11: access-order nodes == residents");
+    kani::cover!(fits, "fits");
+    kani::cover!(!fits && cw as u64 > cap, "heavier than the capacity");
+    kani::cover!(!fits && admit && nv == n && n > 0, "admitted over all residents");
+    kani::cover!(!fits && !admit && cw as u64 <= cap, "rejected by admission");
+    std::mem::forget(st);
+}
+#[kani::proof]
+#[kani::unwind(6)]
+fn handle_insert_lemma_n1() { handle_insert_lemma(1) }
+#[kani::proof]
+#[kani::unwind(6)]
+fn handle_insert_lemma_n2() { handle_insert_lemma(2) }
